@@ -496,6 +496,18 @@ func ruleLITREADER(c *Ctx) []Obligation {
 			if f == nil || f.Pkg() == nil {
 				return true
 			}
+			// the token handed on whole to another translator of the package that takes the same
+			// token type (gepIntVal(n) → gen.irIntConst(types.I64, n)): that function is judged itself
+			if f.Pkg().Path() == pkgASM && f != fn {
+				fs := f.Type().(*types.Signature)
+				for i, a := range call.Args {
+					if id, ok := unparen(a).(*ast.Ident); ok && info.ObjectOf(id) == tok && i < fs.Params().Len() && types.Identical(fs.Params().At(i).Type(), tok.Type()) {
+						if main.Verdict == VIOL {
+							main.Verdict, main.Pos, main.Detail = OK, c.pos(call.Pos()), "the token is handed whole to "+f.Name()+", which is judged itself"
+						}
+					}
+				}
+			}
 			textArg := -1
 			for i, a := range call.Args {
 				if isText(a, 0) {
@@ -503,6 +515,11 @@ func ruleLITREADER(c *Ctx) []Obligation {
 				}
 			}
 			if textArg < 0 {
+				return true
+			}
+			// the text quoted in a diagnostic is not decoded
+			switch f.Pkg().Path() {
+			case "fmt", "errors", "github.com/pkg/errors", "log":
 				return true
 			}
 			if isPkgFunc(f, pkgCONS, ctor) {
@@ -1335,6 +1352,9 @@ func (c *Ctx) guardAccepts(info *types.Info, pm parentMap, n ast.Node, v types.O
 							if s, good := c.predicateAccepts(pk.TypesInfo, fd.Type, fd.Body); good {
 								return s, f.Name(), true
 							}
+							if s, what, good := strconvPredicate(pk.TypesInfo, fd); good {
+								return s, f.Name() + " (" + what + ")", true
+							}
 						}
 					}
 				}
@@ -1342,6 +1362,45 @@ func (c *Ctx) guardAccepts(info *types.Info, pm parentMap, n ast.Node, v types.O
 		}
 	}
 	return set, "", false
+}
+
+// strconvPredicate: fd is `func(s string) bool { _, err := strconv.ParseUint(s, 10, N); return err == nil }`
+// (ParseInt likewise): true only for decimal digit strings (with a sign for ParseInt).
+func strconvPredicate(info *types.Info, fd *ast.FuncDecl) (set [256]bool, what string, ok bool) {
+	if fd.Type.Params == nil || len(fd.Type.Params.List) != 1 || len(fd.Type.Params.List[0].Names) != 1 || len(fd.Body.List) != 2 {
+		return set, "", false
+	}
+	param := info.ObjectOf(fd.Type.Params.List[0].Names[0])
+	as, isA := fd.Body.List[0].(*ast.AssignStmt)
+	ret, isR := fd.Body.List[1].(*ast.ReturnStmt)
+	if !isA || !isR || len(as.Rhs) != 1 || len(as.Lhs) != 2 || len(ret.Results) != 1 {
+		return set, "", false
+	}
+	call, isC := as.Rhs[0].(*ast.CallExpr)
+	if !isC || len(call.Args) != 3 {
+		return set, "", false
+	}
+	f := calleeOf(info, call)
+	if f == nil || f.Pkg() == nil || f.Pkg().Path() != "strconv" || f.Name() != "ParseUint" && f.Name() != "ParseInt" {
+		return set, "", false
+	}
+	if id, isID := unparen(call.Args[0]).(*ast.Ident); !isID || info.ObjectOf(id) != param {
+		return set, "", false
+	}
+	if tv := info.Types[call.Args[1]]; tv.Value == nil || tv.Value.ExactString() != "10" {
+		return set, "", false
+	}
+	errID, isID := as.Lhs[1].(*ast.Ident)
+	if !isID || strings.ReplaceAll(exprString(ret.Results[0]), " ", "") != errID.Name+"==nil" {
+		return set, "", false
+	}
+	for b := '0'; b <= '9'; b++ {
+		set[b] = true
+	}
+	if f.Name() == "ParseInt" {
+		set['+'], set['-'] = true, true
+	}
+	return set, "strconv." + f.Name() + " base 10 succeeded", true
 }
 
 // ---------------------------------------------------------------------------
